@@ -485,6 +485,24 @@ def apply_rewrites(text, rewrites):
                 raise Undecided("R13: no `mut self` receiver")
             ed_.insert(toks_[bo_].end, " let mut this = self; ")
             text = ed_.apply()
+        elif rw[0] == "MUTPARAM":  # R13b: `mut x: T` parameter -> `x: T` + `let mut x_m = x;` and every use of x in the body renamed to x_m
+            toks_ = tokenize(text)
+            bo_ = _body_open_index(toks_)
+            local_ = rw[2] if len(rw) > 2 else rw[1] + "_m"
+            ed_ = Edit(text)
+            ok_ = False
+            for k_, t_ in enumerate(toks_):
+                if t_.kind == "ident" and t_.text == rw[1]:
+                    if k_ < bo_:
+                        if toks_[k_ - 1].text == "mut" and toks_[k_ + 1].text == ":":
+                            ed_.delete(toks_[k_ - 1].start, t_.start)
+                            ok_ = True
+                    elif toks_[k_ - 1].text != ".":
+                        ed_.replace(t_.start, t_.end, local_)
+            if not ok_:
+                raise Undecided(f"R13b: no `mut {rw[1]}` parameter")
+            ed_.insert(toks_[bo_].end, f" let mut {local_} = {rw[1]}; ")
+            text = ed_.apply()
         elif rw[0] == "RENAME":   # R12: an identifier clashing with a Verus builtin name is renamed throughout the function
             toks_ = tokenize(text)
             ed_ = Edit(text)
